@@ -10,6 +10,7 @@ from __future__ import annotations
 import itertools
 
 from .. import api, engine
+from .. import histories as H
 from ..ref import doc as refdoc
 
 ID = "C03"
@@ -247,6 +248,7 @@ def plan(tier: str):
             shards.append({"syms": "small", "maxlen": 2, "minlen": 0, "frame": f, "variants": allv, "service": True})
         for f in frames(tier, "basic"):
             shards.append({"syms": "mid", "maxlen": 2, "minlen": 0, "frame": f, "variants": EOF_VARIANTS, "service": True})
+    shards += H.plan_shards(['nested-revisions'])
     return shards
 
 
@@ -261,6 +263,9 @@ def histories(syms, minlen, maxlen, first=None, second=None):
 
 
 def cases(shard, tier):
+    if shard.get("kind") == "call-histories":
+        yield from H.cases_of(shard)
+        return
     syms = {"full": SYMS_FULL, "small": SYMS_SMALL, "mid": SYMS_MID}[shard["syms"]]
     vs = shard["variants"]
     if shard.get("service"):
@@ -311,6 +316,8 @@ def _diff_fingerprint(exp: dict, act: dict, variant: str, lines) -> tuple[str, s
 
 
 def check_case(case, R: engine.Acc) -> None:
+    if case.get("kind") == "call-history":
+        return H.check_history(case["label"], R, H.project_full, 'model-depends-on-earlier-calls', 'the model mirrors the source text of THIS call')
     lines = program_lines(case)
     if lines is None:
         return  # not a valid definition: outside the quantifier of C03
